@@ -1361,7 +1361,10 @@ namespace xsimd
                     batch_type x = select(inf_result, constants::nan<batch_type>(), a);
                     batch_type q = abs(x);
 #ifndef XSIMD_NO_INFINITIES
-                    inf_result = (q == constants::infinity<batch_type>());
+                    auto const is_inf = (abs(a) == constants::infinity<batch_type>());
+                    inf_result = is_inf || inf_result; // poles (non-positive integers) and +inf give +inf
+#else
+                    auto const is_inf = batch_bool<double, A>(false);
 #endif
                     auto test = (a < batch_type(-34.));
                     batch_type r = constants::nan<batch_type>();
@@ -1369,12 +1372,12 @@ namespace xsimd
                     {
                         r = large_negative(q);
                         if (all(test))
-                            return select(inf_result, constants::nan<batch_type>(), r);
+                            return select(is_inf, constants::nan<batch_type>(), select(inf_result, constants::infinity<batch_type>(), r));
                     }
-                // lanes below -34 take the large_negative result: keep them out of the recurrences of other(),
-                // which would walk them up to 2 one unit per iteration
-                batch_type r1 = other(select(test, batch_type(2.), a));
-                batch_type r2 = select(test, r, r1);
+                    // lanes below -34 take the large_negative result: keep them out of the recurrences of other(),
+                    // which would walk them up to 2 one unit per iteration
+                    batch_type r1 = other(select(test, batch_type(2.), a));
+                    batch_type r2 = select(test, r, r1);
                     return select(a == constants::minusinfinity<batch_type>(), constants::nan<batch_type>(), select(inf_result, constants::infinity<batch_type>(), r2));
                 }
 
